@@ -320,8 +320,14 @@ func buildServer(regs []reg, f fmtSpec, at aliasTab) (*jsonrpc.RPCServer, *rec) 
 	return srv, rc
 }
 
-func call(srv *jsonrpc.RPCServer, body string) string {
+func call(srv *jsonrpc.RPCServer, body string) (reply string) {
 	var buf bytes.Buffer
+	// a panic escaping HandleRequest is reported through the reply (no reply is ever valid JSON-RPC with this text)
+	defer func() {
+		if r := recover(); r != nil {
+			reply = fmt.Sprintf("PANIC escaped HandleRequest: %v", r)
+		}
+	}()
 	srv.HandleRequest(context.Background(), strings.NewReader(body), &buf)
 	return buf.String()
 }
